@@ -46,6 +46,8 @@ type State struct {
 	shared       map[int]bool // cells shared with spawned goroutines (havocked at synchronisation)
 	iters        []*iterInfo
 	preHeap      map[string]string // heap at the most recent loop cut
+	facts        []strFact         // string decomposition facts valid on this path
+	known        map[string]string // known slice elements: region|id|index -> term
 }
 
 func (st *State) clone() *State {
@@ -76,6 +78,13 @@ func (st *State) clone() *State {
 	n.locks = append([]string(nil), st.locks...)
 	n.iters = st.iters
 	n.preHeap = st.preHeap
+	n.facts = st.facts
+	if st.known != nil {
+		n.known = make(map[string]string, len(st.known))
+		for k, v := range st.known {
+			n.known[k] = v
+		}
+	}
 	n.written = st.written
 	n.writtenCells = st.writtenCells
 	n.trace = append([]string(nil), st.trace...)
